@@ -879,6 +879,64 @@ func r11_6(c *Ctx, t *tables) {
 	// that fails may have consumed nothing, so an advance hidden inside it (or made only when it succeeded) is not
 	// progress
 	stmtIface := c.lookupType("ast", "Statement")
+	// helpers of the loops: an unexported parser function "must advance" when every path to each of its returns
+	// passes a direct NextToken (or another such helper); it "parses statements" when a call inside it yields a statement
+	mustAdv := map[*ssa.Function]int{} // 0 unknown, 1 yes, 2 no
+	var mustAdvance func(f *ssa.Function, depth int) bool
+	advancing := func(call *ssa.Call, depth int) bool {
+		cal := call.Call.StaticCallee()
+		if cal == a.nextTok {
+			return true
+		}
+		return cal != nil && cal.Pkg == a.nextTok.Pkg && cal != a.expect && cal != a.expectSemi && cal.Object() != nil && !cal.Object().Exported() && depth < 2 && mustAdvance(cal, depth+1)
+	}
+	mustAdvance = func(f *ssa.Function, depth int) bool {
+		if v := mustAdv[f]; v != 0 {
+			return v == 1
+		}
+		mustAdv[f] = 2
+		if f.Blocks == nil {
+			return false
+		}
+		all := true
+		complete := a.enumPaths(f.Blocks[0], func(facts []pathFact, blocks []*ssa.BasicBlock, last *ssa.BasicBlock) {
+			if _, isRet := last.Instrs[len(last.Instrs)-1].(*ssa.Return); !isRet {
+				return
+			}
+			for _, b := range blocks {
+				for _, call := range callsIn(b) {
+					if advancing(call, depth) {
+						return
+					}
+				}
+			}
+			all = false
+		})
+		if all && complete {
+			mustAdv[f] = 1
+		}
+		return mustAdv[f] == 1
+	}
+	var yieldsStatement func(call *ssa.Call, depth int) bool
+	yieldsStatement = func(call *ssa.Call, depth int) bool {
+		if call.Call.IsInvoke() {
+			return false
+		}
+		if stmtIface != nil && types.Identical(call.Type(), stmtIface) {
+			return true
+		}
+		cal := call.Call.StaticCallee()
+		if cal == nil || cal.Pkg != a.nextTok.Pkg || cal.Object() == nil || cal.Object().Exported() || depth >= 2 || cal.Blocks == nil {
+			return false
+		}
+		found := false
+		allInstrs(cal, func(_ *ssa.BasicBlock, _ int, in ssa.Instruction) {
+			if c2, ok := in.(*ssa.Call); ok && !found && yieldsStatement(c2, depth+1) {
+				found = true
+			}
+		})
+		return found
+	}
 	nl := 0
 	for _, f := range c.libFunctions("parser") {
 		if f.Parent() != nil || f.Blocks == nil {
@@ -901,7 +959,7 @@ func r11_6(c *Ctx, t *tables) {
 					continue
 				}
 				for _, call := range callsIn(b) {
-					if stmtIface != nil && types.Identical(call.Type(), stmtIface) && !call.Call.IsInvoke() {
+					if yieldsStatement(call, 0) {
 						parses = true
 					}
 				}
@@ -918,7 +976,7 @@ func r11_6(c *Ctx, t *tables) {
 				}
 				for _, b := range blocks {
 					for _, call := range callsIn(b) {
-						if call.Call.StaticCallee() == a.nextTok {
+						if advancing(call, 0) {
 							return
 						}
 					}
@@ -937,7 +995,7 @@ func r11_6(c *Ctx, t *tables) {
 			case bad != "":
 				c.bad(key, f.Pos(), "an iteration of the statement loop can come round without the loop itself advancing (blocks %s): when the statement parser fails without consuming anything the parser spins forever on the same token", bad)
 			default:
-				c.ok(key, f.Pos(), "every path round the loop passes a direct NextToken")
+				c.ok(key, f.Pos(), "every path round the loop passes a NextToken of the loop itself (directly, or in a private helper that advances on every path)")
 			}
 		}
 	}
